@@ -8,6 +8,7 @@ from linear_operator import to_dense
 from linear_operator.operators import KroneckerProductLinearOperator, ToeplitzLinearOperator
 from torch import Tensor
 
+from .. import _verif  # isort: skip
 from .. import settings
 from ..utils.grid import convert_legacy_grid, create_data_from_grid
 from .kernel import Kernel
@@ -70,6 +71,8 @@ class GridKernel(Kernel):
     def _clear_cache(self):
         if hasattr(self, "_cached_kernel_mat"):
             del self._cached_kernel_mat
+        if _verif.ON:
+            _verif.cache_event("c_clear", self, "*")
 
     def register_buffer_list(self, base_name, tensors):
         """Helper to register several buffers at once under a single base name"""
@@ -133,6 +136,8 @@ class GridKernel(Kernel):
 
         if self.interpolation_mode or (torch.equal(x1, full_grid) and torch.equal(x2, full_grid)):
             if not self.training and hasattr(self, "_cached_kernel_mat"):
+                if _verif.ON:
+                    _verif.cache_event("c_hit", self, "_cached_kernel_mat")
                 return self._cached_kernel_mat
             # Can exploit Toeplitz structure if grid points in each dimension are equally
             # spaced and using a translation-invariant kernel
@@ -170,6 +175,8 @@ class GridKernel(Kernel):
 
             if not self.training:
                 self._cached_kernel_mat = covar
+                if _verif.ON:
+                    _verif.cache_event("c_fill", self, "_cached_kernel_mat")
 
             return covar
         else:
